@@ -29,8 +29,8 @@ func isLookupFunc(fn *types.Func) bool {
 }
 
 func checkC04(ctx *Ctx, r *Report) {
-	r.Explanation = "Eight structural clauses, each a sufficient condition for a part of the property (a reported site is a potential panic/hang; on the pinned tree every reported site was triaged): (1) bounded recursion through references — on the cog-only call graph (static calls, interface calls by class hierarchy, func-typed fields by the values stored into them), every recursive call whose argument derives from the result of an object lookup / reference resolution is guarded: by a visited set or depth bound, or by a dominating kind test restricting the looked-up type to a leaf kind (scalar/enum: nothing to descend into); closures bound to a local variable and calling it are recursion too; lookups include every function returning what a Locate*/Resolve* function returned; loops whose variable is reassigned from a lookup result leave on an already visited reference; (2) no explicit panic(...) is reachable from the pipeline entry points; (3) single-value type assertions on `any` values are dominated by a comma-ok assertion / type switch on the same expression or sit in the reviewed table; (4) pointers returned with a found-flag/error by cog lookups are not used where the flag was discarded; (5) in the JSON-family parsers, constant indexing into slices owned by the schema libraries is dominated by a length / non-nil / type-presence guard; (6) selections through the kind-specific pointer members of ast.Type (.Scalar, .Ref, .Array, …) on an indexed or ranged collection element are dominated by a kind test on that element (or by a kind-equality with a tested element); (7) every set that is both probed and filled in a function derives its keys the same way on both sides (a visited set probed with other keys than it is filled with never stops a worklist)."
-	r.NotCovered = "nil dereference of Type.<Kind> accessors, index out of range on IR slices and CUE values, stack depth on deeply nested acyclic input, time/space blow-up, panics inside third-party libraries."
+	r.Explanation = "Ten structural clauses, each a sufficient condition for a part of the property (a reported site is a potential panic/hang; on the pinned tree every reported site was triaged): (1) bounded recursion through references — on the cog-only call graph (static calls, interface calls by class hierarchy, func-typed fields by the values stored into them), every recursive call whose argument derives from the result of an object lookup / reference resolution is guarded: by a visited set or depth bound, or by a dominating kind test restricting the looked-up type to a leaf kind (scalar/enum: nothing to descend into); closures bound to a local variable and calling it are recursion too; lookups include every function returning what a Locate*/Resolve* function returned; loops whose variable is reassigned from a lookup result leave on an already visited reference; (2) no explicit panic(...) is reachable from the pipeline entry points; (3) single-value type assertions on `any` values are dominated by a comma-ok assertion / type switch on the same expression or sit in the reviewed table; (4) pointers returned with a found-flag/error by cog lookups are not used where the flag was discarded; (5) in the JSON-family parsers, constant indexing into slices owned by the schema libraries is dominated by a length / non-nil / type-presence guard; (6) selections through the kind-specific pointer members of ast.Type (.Scalar, .Ref, .Array, …) on an indexed or ranged collection element are dominated by a kind test on that element (or by a kind-equality with a tested element); (7) every access to a kind-specific member of ast.Type anywhere in cog (AsStruct(), .Struct.…, *.Scalar, …: the accessors dereference a pointer that is nil for any other kind) is dominated by a test that the same access path has that kind — recognised: enclosing conditions, && / || operands, switch on Kind, loop conditions, earlier exit guards, boolean locals, kind-equality with a tested path, Visitor On<K> callbacks, values built by a constructor of that kind, copies and aliases, cog predicates whose body implies a kind (summaries derived from source), (Type, bool) resolvers whose true result has one kind, and — for parameters — the same test at every call site up to five levels up (interface calls included); the type of an enum member is a scalar by construction (checked on every producer); 20 accesses sit in a reviewed table; (8) every set that is both probed and filled in a function derives its keys the same way on both sides (a visited set probed with other keys than it is filled with never stops a worklist)."
+	r.NotCovered = "index out of range on IR slices and CUE values, nil dereference of other pointers (Object lookups through Get on missing keys, PathItem.Index, OptionDefault), stack depth on deeply nested acyclic input, time/space blow-up, panics inside third-party libraries."
 	r.Exhaustive = true
 	r.Assumptions = []string{"text/template converts a panic inside a template function into an error (safeCall): functions only invoked from templates are not entry-point reachable by static edges", "library slices are either nil or populated (a non-nil test is accepted as a guard for index 0)"}
 
@@ -45,6 +45,8 @@ func checkC04(ctx *Ctx, r *Report) {
 	c04ParserFrontier(ctx, r)
 	c04KindGuardedElements(ctx, r)
 	c04VisitedKeyConsistency(ctx, r)
+	c04KindGuardedAccess(ctx, r, eng)
+	c04EnumMemberScalar(ctx, r)
 }
 
 // ---------------------------------------------------------------------------
@@ -416,11 +418,12 @@ var c04PanicExemptions = map[string]string{
 
 // reviewed recursion edges (one reason each)
 var c04RecursionExemptions = map[string]string{
-	"internal/veneers.EnvelopeFieldValue.AsIR → AsIR(path)":                                   "the recursion walks the (finite) veneers configuration value: AssignmentValue → Envelope → values; `path` is only the target path of that value",
-	"internal/jennies/php.defaultValueForType → defaultValueForType(fieldOverrides)":          "each call consumes one nesting level of the (finite) default-value object it was given",
-	"internal/jennies/python.defaultValueForType → defaultValueForType(fieldOverrides)":       "each call consumes one nesting level of the (finite) default-value object it was given",
-	"internal/jennies/java.RawTypes.formatReferenceDefaults → genDefaultForType(v)":           "each call consumes one nesting level of the (finite) default value `v` it was given: the recursion only continues while that value is a map holding an entry for the field",
-	"internal/jennies/golang.typeFormatter.formatField → doFormatType(fieldType)":             "fieldType is either the field's own type (structural recursion) or, under IsConcreteScalar, a scalar leaf",
+	"internal/jennies/typescript.RawTypes.defaultValueForStructs → defaultValueForStructs(fieldType.AsStruct())": "each call consumes one nesting level of the (finite) default value: the recursion only continues while the value given for the field is itself an object",
+	"internal/veneers.EnvelopeFieldValue.AsIR → AsIR(path)":                                                      "the recursion walks the (finite) veneers configuration value: AssignmentValue → Envelope → values; `path` is only the target path of that value",
+	"internal/jennies/php.defaultValueForType → defaultValueForType(fieldOverrides)":                             "each call consumes one nesting level of the (finite) default-value object it was given",
+	"internal/jennies/python.defaultValueForType → defaultValueForType(fieldOverrides)":                          "each call consumes one nesting level of the (finite) default-value object it was given",
+	"internal/jennies/java.RawTypes.formatReferenceDefaults → genDefaultForType(v)":                              "each call consumes one nesting level of the (finite) default value `v` it was given: the recursion only continues while that value is a map holding an entry for the field",
+	"internal/jennies/golang.typeFormatter.formatField → doFormatType(fieldType)":                                "fieldType is either the field's own type (structural recursion) or, under IsConcreteScalar, a scalar leaf",
 }
 
 func c04EntryPoints(ctx *Ctx) []*types.Func {
@@ -518,10 +521,10 @@ func c04Panics(ctx *Ctx, r *Report, g *callGraph) {
 
 // reviewed assertions that cannot fail (one reason each); keyed by function + asserted expression
 var c04AssertionTable = map[string]string{
-	"internal/jennies/template.Template.builtins v[i].(string)":                                              "the `dict` template helper: only ever invoked by text/template, whose safeCall turns the panic into an error returned by the run",
-	"internal/jennies/common.maybeGet data[key].(T)":                                                          "only reachable through the apiDeclare* template functions: recovered by text/template's safeCall",
-	"internal/jsonschema.generator.walkObject schema.AdditionalProperties.(*schemaparser.Schema)":            "preceded by the guard `_, ok := AdditionalProperties.(bool); if AdditionalProperties == nil || ok { return }`, and the schema library only stores nil, a bool or a *Schema there",
-	"internal/jennies/typescript.RawTypes.defaultValuesForReference typeDef.Default.(map[string]any)":        "guarded by hasStructDefaults(…, typeDef.Default), which is exactly the comma-ok form of this assertion",
+	"internal/jennies/template.Template.builtins v[i].(string)":                                       "the `dict` template helper: only ever invoked by text/template, whose safeCall turns the panic into an error returned by the run",
+	"internal/jennies/common.maybeGet data[key].(T)":                                                  "only reachable through the apiDeclare* template functions: recovered by text/template's safeCall",
+	"internal/jsonschema.generator.walkObject schema.AdditionalProperties.(*schemaparser.Schema)":     "preceded by the guard `_, ok := AdditionalProperties.(bool); if AdditionalProperties == nil || ok { return }`, and the schema library only stores nil, a bool or a *Schema there",
+	"internal/jennies/typescript.RawTypes.defaultValuesForReference typeDef.Default.(map[string]any)": "guarded by hasStructDefaults(…, typeDef.Default), which is exactly the comma-ok form of this assertion",
 }
 
 // reviewed discarded lookup flags
